@@ -759,14 +759,31 @@ def _explicit_raises(fn_node) -> set:
     return out
 
 
+def _type_elts(repo, f, e, depth=0) -> List[ast.AST]:
+    """Elements of an isinstance() class tuple, following class / module constants and tuple concatenation."""
+    if depth > 5:
+        return []
+    if isinstance(e, ast.Tuple):
+        return [x for el in e.elts for x in _type_elts(repo, f, el, depth + 1)]
+    if isinstance(e, ast.BinOp) and isinstance(e.op, ast.Add):
+        return _type_elts(repo, f, e.left, depth + 1) + _type_elts(repo, f, e.right, depth + 1)
+    v = None
+    if isinstance(e, ast.Attribute) and isinstance(e.value, ast.Name) and e.value.id in ("self", "cls") and f.cls is not None:
+        v = repo.class_attr(f.cls, e.attr)
+    elif isinstance(e, ast.Name):
+        v = (repo.class_attr(f.cls, e.id) if f.cls is not None else None) or repo.module_assign(f.module, e.id)
+    if isinstance(v, (ast.Tuple, ast.BinOp, ast.Name, ast.Attribute)) and v is not e:
+        return _type_elts(repo, f, v, depth + 1)
+    return [e]
+
+
 def value_class_raises(repo, f, val_p) -> Dict[str, Dict[str, set]]:
     """dunder name -> {class: exception names}: what the rich-comparison / operator methods of the repo classes
     that _val_matches admits as field values (its isinstance whitelist) raise explicitly."""
     admitted = []
     for c in calls(f.node):
         if ap(c.func) == "isinstance" and len(c.args) == 2 and isinstance(c.args[0], ast.Name) and c.args[0].id == val_p:
-            elts = c.args[1].elts if isinstance(c.args[1], ast.Tuple) else [c.args[1]]
-            for e in elts:
+            for e in _type_elts(repo, f, c.args[1]):
                 ci = repo.resolve_class(ap(e) or "", f.module) if ap(e) else None
                 if ci is not None:
                     for sub in repo.subclasses(ci):
@@ -1097,13 +1114,15 @@ def _inlinable(repo, fi, call, exclude=()) -> Optional[Tuple[Any, Dict[str, ast.
     if not (isinstance(f, ast.Attribute) and isinstance(f.value, ast.Name) and f.value.id == "self" and fi.cls is not None):
         return None
     m = repo.lookup_method(fi.cls, f.attr)
-    if m is None or m.module is not fi.module or m.node is fi.node or m.node.decorator_list or \
-            not isinstance(m.node, ast.FunctionDef):
+    if m is None or m.module is not fi.module or m.node is fi.node or not isinstance(m.node, ast.FunctionDef):
+        return None
+    decos = [(ap(d) or "").split(".")[-1] for d in m.node.decorator_list]
+    if any(d not in ("staticmethod", "classmethod") for d in decos):
         return None
     a = m.node.args
     if a.vararg or a.kwarg or a.kwonlyargs or any(isinstance(x, (ast.Yield, ast.YieldFrom, ast.Await)) for x in walk(m.node)):
         return None
-    params = [x.arg for x in a.args][1:]
+    params = [x.arg for x in a.args] if "staticmethod" in decos else [x.arg for x in a.args][1:]
     mapping: Dict[str, ast.AST] = {}
     defaults = dict(zip(reversed(params), reversed(a.defaults)))
     mapping.update(defaults)
@@ -1694,23 +1713,57 @@ def r6(ctx):
 
 # --------------------------------------------------------------------------- R7 selection loops
 
-def _is_success(e, pol) -> bool:
+def _is_success(e, pol, env=None, depth=0) -> bool:
     """The condition says that the field at hand satisfies the filter node: a truthy _val_matches(...),
-    or `<matcher>.value is None` (existence-only selector)."""
+    or `<matcher>.value is None` (existence-only selector).  With env = (repo, concrete class, function node) also:
+    a local that only ever holds such verdicts, bool(<verdict>), and a self.<helper>(...) every truthy return of
+    which is such a verdict."""
+    if depth > 5:
+        return False
     if isinstance(e, ast.UnaryOp) and isinstance(e.op, ast.Not):
-        return _is_success(e.operand, not pol)
+        return _is_success(e.operand, not pol, env, depth)
     if isinstance(e, ast.BoolOp):
         if isinstance(e.op, ast.Or) and pol:
-            return all(_is_success(v, True) for v in e.values)
+            return all(_is_success(v, True, env, depth) for v in e.values)
         if isinstance(e.op, ast.And) and pol:
-            return any(_is_success(v, True) for v in e.values)
+            return any(_is_success(v, True, env, depth) for v in e.values)
         return False
     if isinstance(e, ast.Call) and call_attr(e) == "_val_matches":
         return pol
     if isinstance(e, ast.Compare) and len(e.ops) == 1 and isinstance(e.comparators[0], ast.Constant) and \
             e.comparators[0].value is None and (ap(e.left) or "").endswith(".value"):
         return (isinstance(e.ops[0], ast.Is) and pol) or (isinstance(e.ops[0], ast.IsNot) and not pol)
+    if env is None or not pol:
+        return False
+    repo, ci, fn_node = env
+    if isinstance(e, ast.Call) and ap(e.func) == "bool" and len(e.args) == 1:
+        return _is_success(e.args[0], True, env, depth + 1)
+    if isinstance(e, ast.Name):
+        vals = [st.value for st in stores(fn_node, into_defs=False) if st.path == e.id and st.kind == "assign"]
+        return bool(vals) and all(v is not None and (_falsy_const(v) or _is_success(v, True, env, depth + 1)) for v in vals) \
+            and not all(_falsy_const(v) for v in vals)
+    if isinstance(e, ast.Call) and isinstance(e.func, ast.Attribute) and isinstance(e.func.value, ast.Name) and \
+            e.func.value.id in ("self", "cls"):
+        m = repo.lookup_method(ci, e.func.attr)
+        if m is None:
+            return False
+        rets = returns_of(m.node)
+        if not rets:
+            return False
+        for r in rets:
+            if r.value is None or _falsy_const(r.value):
+                continue
+            if isinstance(r.value, ast.Constant):
+                if not any(_is_success(x, p_, (repo, ci, m.node), depth + 1) for x, p_ in facts(r, m.node)):
+                    return False
+            elif not _is_success(r.value, True, (repo, ci, m.node), depth + 1):
+                return False
+        return True
     return False
+
+
+def _falsy_const(v) -> bool:
+    return isinstance(v, ast.Constant) and not v.value
 
 
 def r7(ctx):
@@ -1736,7 +1789,7 @@ def r7(ctx):
         for h in hits:
             n_hits += 1
             ctx.ob("C18.R7", f"{g.qual}: `{norm(h)}` records a field only when it satisfies the comparison",
-                   any(_is_success(e, pol) for e, pol in facts(h, g.node)), ctx.w(g, h),
+                   any(_is_success(e, pol, (repo, lcls, g.node)) for e, pol in facts(h, g.node)), ctx.w(g, h),
                    "a field is reported as matching without a successful _val_matches / existence test")
         for n in walk(g.node):
             if not isinstance(n, (ast.Break, ast.Return)):
@@ -1746,7 +1799,7 @@ def r7(ctx):
                 continue
             n_exits += 1
             fs = facts(n, g.node)
-            ok = any(_is_success(e, pol) for e, pol in fs) or \
+            ok = any(_is_success(e, pol, (repo, lcls, g.node)) for e, pol in fs) or \
                 any(pol and isinstance(e, ast.Name) and e.id in found for e, pol in fs)
             if not ok and hits:
                 cfg = cfg or CFG(g.node)
@@ -1762,8 +1815,8 @@ def r7(ctx):
                    ok, ctx.w(g, n),
                    "the loop over candidate fields stops although the current candidate did not satisfy the comparison: "
                    "later candidates that do satisfy it are never tried")
-    ctx.floor("C18.R7", "early exits from field-selection loops", n_exits, 2)
-    ctx.floor("C18.R7", "recorded hits", n_hits, 2)
+    ctx.floor("C18.R7", "early exits from field-selection loops", n_exits, 1)
+    ctx.floor("C18.R7", "recorded hits", n_hits, 1)
 
 
 def r8(ctx):
@@ -1934,6 +1987,102 @@ def r10(ctx):
                f"entry: an aged-out row equal to a retained one vanishes from the view")
 
 
+LLSD = "hippolyzer/lib/base/llsd.py"
+
+
+def r11(ctx):
+    repo = ctx.repo
+    ctx.rule("C18.R11", "a literal in a comparison stays distinguishable from 'no comparison': the visitor hands the boxed "
+                        "LiteralValue to MessageFilterNode (matches() reads `value is None` as a bare selector) and "
+                        "_val_matches unboxes it")
+    consumers = []
+    for g in repo.all_funcs:
+        if g.module.rel != LOGR or g.parent_fn is not None:
+            continue
+        for n in walk(g.node):
+            if isinstance(n, ast.Compare) and len(n.ops) == 1 and isinstance(n.ops[0], (ast.Is, ast.IsNot)) and \
+                    isinstance(n.comparators[0], ast.Constant) and n.comparators[0].value is None and \
+                    (ap(n.left) or "").endswith("matcher.value"):
+                consumers.append((g, n))
+    vb = inline_self_calls(repo, repo.fn("MessageFilterVisitor.visit_binary_expression"))
+    ctors = [c for c in find_calls(vb.node, "MessageFilterNode")]
+    ctx.require(len(ctors) >= 1, "visit_binary_expression no longer builds a MessageFilterNode")
+    init = repo.fn("MessageFilterNode.__init__")
+    iparams = [a.arg for a in init.node.args.args][1:]
+    ctx.require("value" in iparams, "MessageFilterNode.__init__ lost its value parameter")
+    vi = iparams.index("value")
+
+    def unboxed(e, seen=()) -> bool:
+        if isinstance(e, ast.Attribute) and e.attr == "value":
+            return True
+        if isinstance(e, ast.Name) and e.id not in seen:
+            return any(unboxed(st.value, seen + (e.id,)) for st in stores(vb.node) if st.path == e.id and st.value is not None
+                       and not isinstance(st.target, (ast.Tuple, ast.List)) and st.kind == "assign" and
+                       not isinstance(getattr(st.node, "targets", [None])[0], (ast.Tuple, ast.List)))
+        if isinstance(e, ast.IfExp):
+            return unboxed(e.body, seen) or unboxed(e.orelse, seen)
+        return False
+    for c in ctors:
+        a = c.args[vi] if vi < len(c.args) else next((k.value for k in c.keywords if k.arg == "value"), None)
+        if a is None:
+            continue
+        if consumers:
+            ctx.ob("C18.R11", "visit_binary_expression passes the literal to MessageFilterNode boxed", not unboxed(a), ctx.w(vb, c),
+                   f"`{norm(a)}` is unboxed before the node is built, so `X == None` has value None and "
+                   f"{consumers[0][0].qual} (`{norm(consumers[0][1])}`) takes it for a bare selector ('field exists')")
+    f, (op_p, val_p, exp_p), _ = val_matches_branches(ctx)
+    code = [g for g, _ in effective_code(repo, repo.cls("AbstractMessageLogEntry", LOGR), "_val_matches", depth=2)]
+    unbox = any(isinstance(st.value, ast.Attribute) and st.value.attr == "value" and isinstance(st.value.value, ast.Name)
+                for g in code for st in stores(g.node) if st.value is not None) or \
+        any(isinstance(r.value, ast.Attribute) and r.value.attr == "value" for g in code for r in returns_of(g.node))
+    boxed_everywhere = all(not unboxed(c.args[vi] if vi < len(c.args) else next((k.value for k in c.keywords if k.arg == "value"), None) or ast.Constant(value=None))
+                           for c in ctors)
+    ctx.ob("C18.R11", "_val_matches unboxes the literal exactly when the visitor boxed it", unbox == boxed_everywhere, f.where,
+           "the boxed LiteralValue object itself is compared with field values" if boxed_everywhere else
+           "the visitor already unboxed the literal; `.value` of a plain value raises AttributeError -> every comparison is False")
+
+
+def r12(ctx):
+    repo = ctx.repo
+    ctx.rule("C18.R12", "entries are exported as LLSD notation and parsed back: the repo's notation formatter does not "
+                        "format reals with a precision-limited conversion (%.Ng / round), which loses digits on import")
+    mod = repo.module(LLSD)
+    n = 0
+    for lst in repo.classes.values():
+        for ci in lst:
+            if ci.module is not mod:
+                continue
+            for m in ci.methods.values():
+                if m.name.upper() != "REAL" and "real" not in m.name.lower() and "float" not in m.name.lower():
+                    continue
+                n += 1
+                lossy = []
+                for x in walk(m.node):
+                    if isinstance(x, ast.Constant) and isinstance(x.value, (str, bytes)):
+                        txt = x.value.decode("latin1") if isinstance(x.value, bytes) else x.value
+                        import re as _re
+                        for mm in _re.finditer(r"%[-+ #0]*\d*\.(\d+)[gGeEfF]|\{[^{}]*:[^{}]*\.(\d+)[gGeEfF]\}", txt):
+                            d = int(mm.group(1) or mm.group(2))
+                            if d < 17:
+                                lossy.append(mm.group(0))
+                    elif isinstance(x, ast.JoinedStr):
+                        for fv in x.values:
+                            if isinstance(fv, ast.FormattedValue) and fv.format_spec is not None:
+                                spec = "".join(v.value for v in fv.format_spec.values if isinstance(v, ast.Constant))
+                                import re as _re
+                                mm = _re.search(r"\.(\d+)[gGeEfF]", spec)
+                                if mm and int(mm.group(1)) < 17:
+                                    lossy.append(spec)
+                    elif isinstance(x, ast.Call) and ap(x.func) == "round":
+                        lossy.append("round()")
+                ctx.ob("C18.R12", f"{ci.name}.{m.name} formats reals without limiting their precision", not lossy, m.where,
+                       f"{lossy}: a double needs 17 significant digits to survive text; exported entries come back with "
+                       f"different values")
+    if n == 0:
+        ctx.ob("C18.R12", "the repo does not override real formatting (the llsd package's repr-based form is used)", True,
+               f"{LLSD}:1")
+
+
 def run(ctx):
     rules = grammar_rules(ctx)
     ctx.floor("C18", "grammar rules reachable from the start rule", len(rules), 10)
@@ -1947,6 +2096,8 @@ def run(ctx):
     r8(ctx)
     r9(ctx)
     r10(ctx)
+    r11(ctx)
+    r12(ctx)
     ctx.assume("arpeggio semantics: python list = ordered choice committing to the first matching alternative, "
                "string alternatives match by prefix; regex alternatives are not compared")
     ctx.assume("child filter nodes return MatchResult(False, []) | MatchResult(True, fields) (fields possibly empty)")
